@@ -80,7 +80,7 @@ pub fn plan_for(prop: &str, tier: Tier) -> Option<PropPlan> {
             ],
         }),
         "C06" => {
-            let mut sp = spec("C06", OPS_C01 | OPS_C02 | ops(&[OP_CLEAR, OP_LAZY, OP_DROP_NEW]), MON_VALID | MON_MODEL | MON_OWN | MON_MEM, l.min(3));
+            let mut sp = spec("C06", OPS_C01 | OPS_C02 | ops(&[OP_CLEAR, OP_DROP_NEW]), MON_VALID | MON_MODEL | MON_OWN | MON_MEM, l.min(3));
             sp.fault_enum = true;
             sp.allow_lies = true;
             let mut spc = sp.clone();
